@@ -318,7 +318,8 @@ def build_clf(cfg, classes):
 
 # ---------------------------------------------------------------- calls ----
 def call_query(kind, name, obj, chunk, clf=None, X=None, y=None,
-               sample_weight=None, fit_clf=False, return_utilities=False):
+               sample_weight=None, fit_clf=False, return_utilities=False,
+               utility_weight=None):
     """chunk: ndarray (n, d) for strategies, ndarray (n,) of utilities for
     managers.  Returns (queried_indices, utilities_or_None)."""
     if kind == "manager":
@@ -328,6 +329,8 @@ def call_query(kind, name, obj, chunk, clf=None, X=None, y=None,
                   return_utilities=return_utilities)
         if sample_weight is not None:
             kw["sample_weight"] = sample_weight
+        if utility_weight is not None:
+            kw["utility_weight"] = utility_weight
         r = obj.query(**kw)
     else:
         r = obj.query(candidates=chunk, return_utilities=return_utilities)
